@@ -233,6 +233,8 @@ void World::run()
 
 J World::result()
 {
+	J extra = J::obj();
+	for (auto &h : result_hooks) h(extra);      // hooks may add violations and probes, and override fields
 	J r = J::obj();
 	r.set("scenario", scen);
 	r.set("seed", (long long)S.seed);
@@ -254,7 +256,7 @@ J World::result()
 	J ex = J::obj();
 	for (auto &t : S.tasks) if (t->state == T_EXITED) ex.set(t->name, t->exit_code);
 	r.set("exits", ex);
-	for (auto &h : result_hooks) h(r);
+	for (auto &p : extra.o) r.set(p.first, p.second);
 	// the explicit fate list makes this run replayable without the generator
 	J fl = J::arr();
 	for (auto &f : S.fired) fl.push(fate_json(f.first, f.second));
